@@ -89,6 +89,22 @@ func (c *aeCtx) candidates(w *world, na needAtom) []int {
 		if o, ok := c.originOf[na.key]; ok && ti.kind == akOrder && isStringType(ti.t) {
 			dom = c.fieldDomain(o)
 		}
+		if dom == nil && ti.kind == akOrder && isStringType(ti.t) && len(ti.base) == 1 {
+			// a case/space normalisation of a field with a closed domain has the image of that domain
+			if o, ok := c.originOf[ti.base[0]]; ok {
+				for name, f := range map[string]func(string) string{"ToLower": strings.ToLower, "ToUpper": strings.ToUpper, "TrimSpace": strings.TrimSpace} {
+					if na.key == name+"("+ti.base[0]+")" {
+						if bd := c.fieldDomain(o); bd != nil && bd.closed {
+							img := &fieldDomain{closed: true}
+							for _, wd := range bd.allowed {
+								img.allowed = append(img.allowed, f(wd))
+							}
+							dom = img
+						}
+					}
+				}
+			}
+		}
 		for _, v := range cands {
 			if dom != nil && !domainAllows(dom, c.pools[na.key], v) {
 				continue
